@@ -41,6 +41,13 @@ def main():
     seed = int(os.environ.get('VERIF_SEED', '1') or 1)
     pid = args.pid.upper()
 
+    if os.environ.get('VERIF_CHILD'):
+        # the variant run is also a process without a standard input (a daemon, a service): descriptor 0 is free and the
+        # next file or socket that is opened gets it
+        try:
+            os.close(0)
+        except OSError:
+            pass
     if os.environ.get('VERIF_WERROR'):
         import warnings
         # a process that treats warnings as errors (python -W error, CI settings): whatever mido warns about raises.
